@@ -9,6 +9,9 @@ def make_sim(name: str) -> Simulator:
     if name == "simh":
         from sims.simh import SimH
         return SimH()
+    if name == "sime":
+        from sims.sime.sim import SimE
+        return SimE()
     raise HarnessError(f"unknown simulator {name}")
 
 
@@ -37,6 +40,17 @@ _add(CheckSpec(
           "and without device memory reset; non-trivial = a write cycle ran after a device fault; distinct = distinct "
           "(op kind, fault flag, pre-state) sequence"),
     assumptions=_H_ASSUME, wall_quick=40, wall_thorough=1500))
+
+
+_E_ASSUME = ["hardware and UOD callbacks return values in their declared domains (faults are exactly those scripted)",
+             "ticks are delivered sequentially by the simulator with the increments of the plan; requests arrive between ticks",
+             "observation through tags, emitter events, message builder, request handlers, hardware layer, probe commands"]
+
+for _p, _profiles in {"C06": ["control"], "C07": ["control", "run"], "C08": ["control"], "C09": ["control"],
+                      "C15": ["run", "control"], "C16": ["run", "control"], "C36": ["run", "control"]}.items():
+    _add(CheckSpec(property=_p, sim="sime", profiles=_profiles, runs_quick=3000, runs_thorough=300000,
+                   level="exploration", rule="(filled per property)", assumptions=_E_ASSUME, wall_quick=45,
+                   wall_thorough=1500))
 
 
 def get_spec(prop: str) -> CheckSpec:
